@@ -23,6 +23,8 @@ pub mod vlib_server {
 
     // UdpSocket: the network is external; results are arbitrary except for what the API documents.
     pub assume_specification<A: std::net::ToSocketAddrs> [std::net::UdpSocket::send_to] (_0: &std::net::UdpSocket, _1: &[u8], _2: A) -> std::result::Result<usize, std::io::Error>;
+    pub assume_specification<A: std::net::ToSocketAddrs> [std::net::UdpSocket::bind] (_0: A) -> std::result::Result<std::net::UdpSocket, std::io::Error>;
+    pub assume_specification [std::net::UdpSocket::set_nonblocking] (_0: &std::net::UdpSocket, _1: bool) -> std::result::Result<(), std::io::Error>;
     pub assume_specification [std::net::UdpSocket::recv_from] (_0: &std::net::UdpSocket, buf: &mut [u8]) -> (r: std::result::Result<(usize, std::net::SocketAddr), std::io::Error>)
         ensures
             final(buf)@.len() == old(buf)@.len(),
